@@ -21,7 +21,7 @@ from vlib.core import Violation
 FAULTS = ["absent", "exit1_after_read", "exit1_immediately", "kill_after_read",
           "kill_before_read", "empty_ok", "exit0_without_reading", "slow_ok",
           "partial_then_kill", "partial_then_exit1", "garbage_exit3", "read_some_then_exit1",
-          "sigterm_after_read"]
+          "sigterm_after_read", "midchar_then_exit1", "midchar_then_kill", "midchar_exit0"]
 DEADLINE_S = 40
 HARD_WATCHDOG_S = 150
 
